@@ -476,7 +476,9 @@ def report(prop, new, known):
         e = info["entry"]
         print(f"KNOWN-FINDING: property={prop} {e['what']} (seen {info['count']}x, key {info['example']['key']})")
     rc = 0
-    for v in new:
+    for v in new[12:]:
+        print(f"  further class (not replayed): {v['key']}")
+    for v in new[:12]:
         v = dict(v)
         v["property"] = prop
         if v.get("process_level") and v.get("case"):
